@@ -71,19 +71,41 @@ def check_list(l1, l2, t1, t2, t):
 
 
 def check_objects(case):
-    """real interpolate_ground_truth_frames on two real frames: ids appearing / disappearing, poses on the segment and the shortest arc"""
+    """real interpolate_ground_truth_frames on two real frames: ids appearing / disappearing, poses on the segment and the shortest arc (objects given in the
+    map frame or in the ego frame of a possibly tilted ego: interpolation is between their GLOBAL poses), the two neighbour frames left as they were"""
     import math
+    import numpy as np
     import build
     from pyquaternion import Quaternion
     from perception_eval.common.dataset import FrameGroundTruth, interpolate_ground_truth_frames
+    from perception_eval.common.schema import FrameID
     t1, t2, t = case["t1"], case["t2"], case["t"]
-    mk = lambda lst: [build.obj3d(dict(d, frame="map")) for d in lst]
+    frame = case.get("frame", "map")
+    mk = lambda lst: [build.obj3d(dict(d, frame=frame)) for d in lst]
     f1 = FrameGroundTruth(t1, "0", mk(case["first"]), transforms=build.ego_matrix(case["ego1"]))
     f2 = FrameGroundTruth(t2, "1", mk(case["second"]), transforms=build.ego_matrix(case["ego2"]))
+
+    def snap(f):
+        m = f.transforms[(FrameID.BASE_LINK, FrameID.MAP)]
+        return (f.unix_time, f.frame_name, [(id(o), tuple(o.state.position), tuple(o.state.orientation.elements), str(o.frame_id), o.unix_time, o.uuid) for o in f.objects],
+                np.array(m.matrix).copy().tolist(), id(m))
+    before = (snap(f1), snap(f2))
     out = interpolate_ground_truth_frames(f1, f2, t)
+    if (snap(f1), snap(f2)) != before:
+        return "interpolating between two frames changed one of them (ego pose, objects or stamp of a neighbour frame)"
+    if out is f1 or out is f2:
+        return "the interpolated frame is one of the neighbour frames itself"
     if out.unix_time != t:
         return f"interpolated frame stamped {out.unix_time}, query time {t}"
     a = (t - t1) / (t2 - t1)
+
+    def global_pose(d, ego):
+        q = build.quat_yaw(d["yaw"])
+        p = np.array([d["x"], d["y"], 0.0])
+        if frame == "map":
+            return p, q
+        qe = build.quat_ego(ego)
+        return qe.rotate(p) + np.array([ego["x"], ego["y"], ego.get("z", 0.0)]), qe * q
     d1 = {d["uuid"]: d for d in case["first"]}
     d2 = {d["uuid"]: d for d in case["second"]}
     got = {}
@@ -95,16 +117,18 @@ def check_objects(case):
         return f"interpolated frame holds {sorted(got)}, the neighbours hold {sorted(set(d1) | set(d2))}"
     for u, o in got.items():
         if u in d1 and u in d2:
-            want = [d1[u][k] + (d2[u][k] - d1[u][k]) * a for k in ("x", "y")]
-            q = Quaternion.slerp(build.quat_yaw(d1[u]["yaw"]), build.quat_yaw(d2[u]["yaw"]), a)
-            if max(abs(o.state.position[0] - want[0]), abs(o.state.position[1] - want[1])) > 1e-9 or Quaternion.absolute_distance(o.state.orientation, q) > 1e-9:
-                return f"object {u}: pose {o.state.position[:2]} is not on the segment at the proportional time ({want})"
+            (p1, q1), (p2, q2) = global_pose(d1[u], case["ego1"]), global_pose(d2[u], case["ego2"])
+            want = p1 + (p2 - p1) * a
+            q = Quaternion.slerp(q1, q2, a)
+            if max(abs(np.array(o.state.position) - want)) > 1e-7 or Quaternion.absolute_distance(o.state.orientation, q) > 1e-7:
+                return (f"object {u}: pose {tuple(o.state.position)} / {o.state.orientation} is not on the segment / arc between its two global poses at the proportional time "
+                        f"({tuple(want)} / {q})")
             if o.unix_time != int(t):
                 return f"object {u} stamped {o.unix_time}"
         else:
-            d = d1.get(u) or d2[u]
-            if abs(o.state.position[0] - d["x"]) > 1e-9 or abs(o.state.position[1] - d["y"]) > 1e-9:
-                return f"object {u} is present in one neighbour only and must be kept as it is"
+            pw, qw = global_pose(d1[u], case["ego1"]) if u in d1 else global_pose(d2[u], case["ego2"])
+            if max(abs(np.array(o.state.position) - pw)) > 1e-7 or Quaternion.absolute_distance(o.state.orientation, qw) > 1e-7:
+                return f"object {u} is present in one neighbour only and must be kept as it is (global pose {tuple(pw)})"
     return None
 
 
@@ -116,8 +140,10 @@ def gen_objects(rnd):
     rnd.shuffle(second)
     t1 = rnd.randint(0, 5) * 100000
     t2 = t1 + rnd.randint(1, 5) * 100000
-    ego = lambda: dict(x=round(rnd.uniform(-5, 5), 2), y=round(rnd.uniform(-5, 5), 2), yaw=round(rnd.uniform(-3, 3), 2))
-    return dict(first=first, second=second, t1=t1, t2=t2, t=rnd.choice([t1, t2, rnd.randint(t1, t2)]), ego1=ego(), ego2=ego())
+    tilt = rnd.random() < 0.4
+    ego = lambda: dict(x=round(rnd.uniform(-5, 5), 2), y=round(rnd.uniform(-5, 5), 2), yaw=round(rnd.uniform(-3, 3), 2),
+                       **(dict(pitch=round(rnd.uniform(-0.2, 0.2), 2), roll=round(rnd.uniform(-0.15, 0.15), 2), z=round(rnd.uniform(-1, 1), 2)) if tilt else {}))
+    return dict(first=first, second=second, t1=t1, t2=t2, t=rnd.choice([t1, t2, rnd.randint(t1, t2)]), ego1=ego(), ego2=ego(), frame=rnd.choice(["map", "base_link"]))
 
 
 def search(item, seed):
